@@ -92,6 +92,15 @@ def create_readback(c):
 JOBS = {"duration": duration, "schedules": schedules, "clock": clock, "decode": decode, "next_run": next_run, "next_run_reuse": next_run_reuse, "create_readback": create_readback,
         "facts": lambda c: local_facts(c["t"]),
         "schedules_nodisplay": lambda c: schedules(c, False)}
+def with_zone(f, c):
+    """a case may name its own zone: the host zone is switched inside this one process (TZ + tzset) before the case runs"""
+    global ZONE, TZ
+    z = c.get("zone")
+    if z and z != ZONE:
+        os.environ["TZ"] = z; time.tzset(); ZONE = z; TZ = zoneinfo.ZoneInfo(z)
+    return f(c)
+
+
 job = json.load(sys.stdin)
 f = JOBS[job["job"]]
-json.dump([f(c) for c in job["cases"]], sys.stdout)
+json.dump([with_zone(f, c) for c in job["cases"]], sys.stdout)
